@@ -292,8 +292,86 @@ fn ids_of(r: &query_engine::QueryResult) -> Vec<i64> {
     ids
 }
 
-/// C14.  in: {"cid","kind","init":[spec..],"work":[spec..],"n","idx","tamper"} ; idx = -1: request built from
-/// JSON without shard_index.  out: + real inventories, outcome, ids returned, ids the initiator attributes to the shard.
+/// One fragment exchange between two long-lived contexts: the initiator's digest for `n` shards (xor `tamper`),
+/// then the public execute_fragment on the worker's context.
+fn exchange(rt: &tokio::runtime::Runtime, ictx: &query_engine::ExecutionContext, wctx: &query_engine::ExecutionContext,
+            n: usize, idx: i64, tamper: i64, probe: bool) -> Result<Value, String> {
+    // probe: a statement that cannot be planned; if its error surfaces, the fragment's SQL ran before the gate
+    let sql = if probe { "SELECT no_such_column_qev FROM t" } else { "SELECT id FROM t" };
+    // initiator side: its own split universe, digest and assignment
+    let iset = splits_of(ictx, "t", n).map_err(|e| format!("initiator splits_of: {e}"))?;
+    let digest = iset.digest() ^ (tamper as u64);
+    let iasg = assign_lpt(&iset, n);
+    let init_ids: Option<Vec<i64>> = if idx >= 0 && (idx as usize) < iasg.per_node.len() {
+        let mut v = Vec::new();
+        for &si in &iasg.per_node[idx as usize] {
+            let s = &iset.splits[si];
+            for r in s.row_offset..s.row_offset + s.num_rows {
+                v.push(row_id(code_of(&s.file), s.row_group as i64, r));
+            }
+        }
+        v.sort_unstable();
+        Some(v)
+    } else {
+        None
+    };
+    let req: Result<FragmentRequest, String> = if idx >= 0 {
+        Ok(FragmentRequest { sql: sql.into(), table: "t".into(), shard_index: idx as usize, shard_count: n, splits_digest: digest })
+    } else {
+        // wire form without a shard index
+        serde_json::from_value(json!({"sql": sql, "table": "t", "shard_count": n, "splits_digest": digest}))
+            .map_err(|e| format!("request rejected at decode: {e}"))
+    };
+    let mut o = json!({"init_digest": format!("{:016x}", digest),
+                       "init_ids": init_ids.clone().unwrap_or_default(), "init_has": if init_ids.is_some() { 1 } else { 0 },
+                       "init_splits": iset.len()});
+    match req {
+        Err(e) => {
+            o["outcome"] = json!("refused");
+            o["err"] = json!(e);
+            o["ids"] = json!([]);
+            o["ran_sql"] = json!(0);
+        }
+        Ok(req) => match rt.block_on(execute_fragment(wctx, &req)) {
+            Ok((res, _stats)) => {
+                o["outcome"] = json!("answered");
+                o["err"] = json!("");
+                o["ids"] = json!(ids_of(&res));
+                o["ran_sql"] = json!(1);
+            }
+            Err(e) => {
+                let text = e.to_string();
+                o["outcome"] = json!("refused");
+                o["ran_sql"] = json!(if text.contains("no_such_column_qev") { 1 } else { 0 });
+                o["err"] = json!(text.chars().take(160).collect::<String>());
+                o["ids"] = json!([]);
+            }
+        },
+    }
+    Ok(o)
+}
+
+fn merge_outcome(rec: &mut Value, r: Result<Result<Value, String>, String>) {
+    match r {
+        Ok(Ok(o)) => {
+            for (k, v) in o.as_object().unwrap() {
+                rec[k] = v.clone();
+            }
+        }
+        Ok(Err(e)) => {
+            rec["outcome"] = json!("setup_error");
+            rec["err"] = json!(e);
+        }
+        Err(p) => {
+            rec["outcome"] = json!("panic");
+            rec["err"] = json!(p);
+        }
+    }
+}
+
+/// C14.  in: {"cid","kind","init":[spec..],"work":[spec..],"n","idx","tamper","probe","viadir"} ; idx = -1: request
+/// built from JSON without shard_index.  out: + real inventories, outcome, ids returned, ids the initiator
+/// attributes to the shard.
 pub fn gate_replay(a: &[String]) -> i32 {
     quiet_panics();
     let cases = read_ndjson(&a[0]);
@@ -309,8 +387,7 @@ pub fn gate_replay(a: &[String]) -> i32 {
         let n = c["n"].as_u64().unwrap() as usize;
         let idx = c["idx"].as_i64().unwrap();
         let tamper = c["tamper"].as_i64().unwrap_or(0);
-        // probe: a statement that cannot be planned; if its error surfaces, the fragment's SQL ran before the gate
-        let sql = if c["probe"].as_i64().unwrap_or(0) == 1 { "SELECT no_such_column_qev FROM t" } else { "SELECT id FROM t" };
+        let probe = c["probe"].as_i64().unwrap_or(0) == 1;
         let mut rec = c.clone();
         rec["init"] = json!(iinv);
         rec["work"] = json!(winv);
@@ -318,76 +395,96 @@ pub fn gate_replay(a: &[String]) -> i32 {
             let viadir = c["viadir"].as_i64().unwrap_or(0) == 1;
             let ictx = table_ctx(&ipaths, viadir).map_err(|e| format!("initiator: {e}"))?;
             let wctx = table_ctx(&wpaths, viadir).map_err(|e| format!("worker: {e}"))?;
-            // initiator side: its own split universe, digest and assignment
-            let iset = splits_of(&ictx, "t", n).map_err(|e| format!("initiator splits_of: {e}"))?;
-            let digest = iset.digest() ^ (tamper as u64);
-            let iasg = assign_lpt(&iset, n);
-            let init_ids: Option<Vec<i64>> = if idx >= 0 && (idx as usize) < iasg.per_node.len() {
-                let mut v = Vec::new();
-                for &si in &iasg.per_node[idx as usize] {
-                    let s = &iset.splits[si];
-                    for r in s.row_offset..s.row_offset + s.num_rows {
-                        v.push(row_id(code_of(&s.file), s.row_group as i64, r));
-                    }
-                }
-                v.sort_unstable();
-                Some(v)
-            } else {
-                None
-            };
-            let wdigest = splits_of(&wctx, "t", n).map(|s| s.digest()).ok();
-            let req: Result<FragmentRequest, String> = if idx >= 0 {
-                Ok(FragmentRequest { sql: sql.into(), table: "t".into(), shard_index: idx as usize,
-                                     shard_count: n, splits_digest: digest })
-            } else {
-                // wire form without a shard index
-                serde_json::from_value(json!({"sql": sql, "table": "t", "shard_count": n, "splits_digest": digest}))
-                    .map_err(|e| format!("request rejected at decode: {e}"))
-            };
-            let mut o = json!({"digest_eq": if wdigest == Some(digest) { 1 } else { 0 },
-                               "init_ids": init_ids.clone().unwrap_or_default(), "init_has": if init_ids.is_some() { 1 } else { 0 },
-                               "init_splits": iset.len()});
-            match req {
-                Err(e) => {
-                    o["outcome"] = json!("refused");
-                    o["err"] = json!(e);
-                    o["ids"] = json!([]);
-                    o["ran_sql"] = json!(0);
-                }
-                Ok(req) => match rt.block_on(execute_fragment(&wctx, &req)) {
-                    Ok((res, _stats)) => {
-                        o["outcome"] = json!("answered");
-                        o["err"] = json!("");
-                        o["ids"] = json!(ids_of(&res));
-                        o["ran_sql"] = json!(1);
-                    }
-                    Err(e) => {
-                        let text = e.to_string();
-                        o["outcome"] = json!("refused");
-                        o["ran_sql"] = json!(if text.contains("no_such_column_qev") { 1 } else { 0 });
-                        o["err"] = json!(text.chars().take(160).collect::<String>());
-                        o["ids"] = json!([]);
-                    }
-                },
-            }
-            Ok(o)
+            exchange(&rt, &ictx, &wctx, n, idx, tamper, probe)
         }));
-        match r {
-            Ok(Ok(o)) => {
-                for (k, v) in o.as_object().unwrap() {
-                    rec[k] = v.clone();
-                }
-            }
-            Ok(Err(e)) => {
-                rec["outcome"] = json!("setup_error");
-                rec["err"] = json!(e);
-            }
-            Err(p) => {
-                rec["outcome"] = json!("panic");
-                rec["err"] = json!(p);
-            }
-        }
+        merge_outcome(&mut rec, r);
         out.put(&rec);
+        let _ = std::fs::remove_dir_all(&root);
+    }
+    out.finish();
+    0
+}
+
+/// Rewrite a file IN PLACE (same path, other content) and give it a modification time no earlier file of this
+/// run had: the engine's footer cache is keyed by (path, mtime), and a rewrite within the timestamp granularity
+/// of the file system is the business of another property (C19), not of this one.
+fn rewrite_file(path: &Path, name: i64, rgs: &[Value], tick: u64) {
+    std::fs::remove_file(path).unwrap();
+    write_file(path, name, rgs);
+    let t = std::time::SystemTime::now() + std::time::Duration::from_secs(3600 + 7 * tick);
+    let f = std::fs::OpenOptions::new().write(true).open(path).unwrap();
+    f.set_modified(t).unwrap();
+}
+
+/// C14 histories.  in: {"hid","viadir","steps":[{"kind","init":[spec..],"work":[spec..],"n","idx","probe"}]}: the two
+/// contexts are built ONCE from the files of step 1 (register_parquet on the directory, or an explicit file list);
+/// before every later step the files whose specification changed are rewritten under the same paths; then the
+/// exchange runs on the SAME contexts.  out: one record per step (real footers as they are at that step).
+pub fn gate_history(a: &[String]) -> i32 {
+    quiet_panics();
+    let cases = read_ndjson(&a[0]);
+    let mut out = Out::create(&a[1]);
+    let work = PathBuf::from(&a[2]);
+    let rt = tokio::runtime::Builder::new_multi_thread().worker_threads(2).enable_all().build().unwrap();
+    let mut tick: u64 = 0;
+    for h in cases {
+        let hid = h["hid"].as_i64().unwrap();
+        let root = work.join(format!("h{hid}"));
+        let _ = std::fs::remove_dir_all(&root);
+        let viadir = h["viadir"].as_i64().unwrap_or(0) == 1;
+        let steps = h["steps"].as_array().unwrap();
+        let first = &steps[0];
+        let (ipaths, _) = materialise(&root.join("init"), first["init"].as_array().unwrap());
+        let (wpaths, _) = materialise(&root.join("work"), first["work"].as_array().unwrap());
+        let ctxs = catch(std::panic::AssertUnwindSafe(|| -> Result<_, String> {
+            Ok((table_ctx(&ipaths, viadir).map_err(|e| format!("initiator: {e}"))?,
+                table_ctx(&wpaths, viadir).map_err(|e| format!("worker: {e}"))?))
+        }));
+        let mut prev = first.clone();
+        let mut rewrites = 0;
+        for (k, st) in steps.iter().enumerate() {
+            let mut rec = st.clone();
+            rec["hid"] = json!(hid);
+            rec["step"] = json!(k + 1);
+            rec["viadir"] = json!(if viadir { 1 } else { 0 });
+            if k > 0 {
+                for (side, paths) in [("init", &ipaths), ("work", &wpaths)] {
+                    let now = st[side].as_array().unwrap();
+                    let before = prev[side].as_array().unwrap();
+                    if now.len() != before.len() {
+                        panic!("history {hid}: the file set of {side} changes (only in-place rewrites are supported)");
+                    }
+                    for (i, spec) in now.iter().enumerate() {
+                        if spec["name"] != before[i]["name"] || spec["dir"] != before[i]["dir"] {
+                            panic!("history {hid}: file {i} of {side} is renamed or moved");
+                        }
+                        if spec["rgs"] != before[i]["rgs"] {
+                            tick += 1;
+                            rewrites += 1;
+                            rewrite_file(&paths[i], spec["name"].as_i64().unwrap(), spec["rgs"].as_array().unwrap(), tick);
+                        }
+                    }
+                }
+                prev = st.clone();
+            }
+            rec["rewrites_so_far"] = json!(rewrites);
+            // the footers as they are on disk NOW (read independently of the engine)
+            let inv = |paths: &Vec<PathBuf>, specs: &Value| -> Vec<Value> {
+                paths.iter().zip(specs.as_array().unwrap()).map(|(p, s)| json!({"name": s["name"], "dir": s["dir"], "rgs": read_inventory(p)})).collect()
+            };
+            rec["init"] = json!(inv(&ipaths, &st["init"]));
+            rec["work"] = json!(inv(&wpaths, &st["work"]));
+            let n = st["n"].as_u64().unwrap() as usize;
+            let idx = st["idx"].as_i64().unwrap();
+            let probe = st["probe"].as_i64().unwrap_or(0) == 1;
+            let r = match &ctxs {
+                Ok(Ok((ictx, wctx))) => catch(std::panic::AssertUnwindSafe(|| exchange(&rt, ictx, wctx, n, idx, 0, probe))),
+                Ok(Err(e)) => Ok(Err(e.clone())),
+                Err(p) => Err(p.clone()),
+            };
+            merge_outcome(&mut rec, r);
+            out.put(&rec);
+        }
         let _ = std::fs::remove_dir_all(&root);
     }
     out.finish();
